@@ -59,11 +59,27 @@ func lroutes(rec *sync.Map) RouteList {
 		io.ReadFull(cx, buf)
 		return next.Handle(cx)
 	})))
+	// like `cons`, but the handler passes on a wrapped connection (as tls / proxy_protocol / tee do): the bytes it left unread stay
+	// in the outer Connection's matching buffer and are read through the wrapper
+	wrp := &Route{matcherSets: first('W', 5)}
+	wrp.middleware = append(wrp.middleware, wrapHandler(NextHandlerFunc(func(cx *Connection, next Handler) error {
+		buf := make([]byte, 3)
+		io.ReadFull(cx, buf)
+		return next.Handle(cx.Wrap(lpass{Conn: cx.Conn, r: cx}))
+	})))
 	rej := &Route{matcherSets: MatcherSets{MatcherSet{&vmErr{'E'}}}}
 	big := &Route{matcherSets: first('B', 3000)} // forces several prefetch rounds, then falls through
 	big.middleware = append(big.middleware, wrapHandler(NextHandlerFunc(func(cx *Connection, next Handler) error { return next.Handle(cx) })))
-	return RouteList{term, cons, rej, big}
+	return RouteList{term, cons, wrp, rej, big}
 }
+
+// lpass reads through the Connection it was made from (what a protocol-terminating wrapper does)
+type lpass struct {
+	net.Conn
+	r io.Reader
+}
+
+func (p lpass) Read(b []byte) (int, error) { return p.r.Read(b) }
 
 // vfirst decides on the first byte; only if it equals b does it wait for `need` bytes
 type vfirst struct {
@@ -133,12 +149,12 @@ func runListenerHistory(r *vrng, h lhist) (sig, desc string, summary string) {
 	var cmu sync.Mutex
 	var cwg sync.WaitGroup
 	for i := 0; i < h.n; i++ {
-		class := []byte{'H', 'H', 'C', 'T', 'E', 'B', 'H'}[r.intn(7)]
+		class := []byte{'H', 'H', 'C', 'T', 'E', 'B', 'H', 'W', 'W'}[r.intn(9)]
 		if h.ipOnly {
 			class = 'H'
 		}
 		n := r.pick(1, 2, 5, 6, 100, 2048, 2049, 5000)
-		if class == 'C' && n < 5 {
+		if (class == 'C' || class == 'W') && n < 5 {
 			n = 6
 		}
 		if class == 'B' {
@@ -210,7 +226,7 @@ func runListenerHistory(r *vrng, h lhist) (sig, desc string, summary string) {
 		// let every client that falls through be delivered, then close
 		want := 0
 		for _, c := range clients {
-			if c.class == 'H' || c.class == 'C' || c.class == 'B' {
+			if c.class == 'H' || c.class == 'C' || c.class == 'B' || c.class == 'W' {
 				want++
 			}
 		}
@@ -263,7 +279,7 @@ func runListenerHistory(r *vrng, h lhist) (sig, desc string, summary string) {
 			return "consumed-but-delivered", fmt.Sprintf("client %d of class %c (consumed by a terminal handler / rejected by a matcher error) was delivered to Accept", c.id, c.class), ""
 		}
 		want := c.stream
-		if c.class == 'C' {
+		if c.class == 'C' || c.class == 'W' {
 			want = c.stream[3:]
 		}
 		if !bytes.Equal(d.got, want) {
@@ -288,7 +304,7 @@ func runListenerHistory(r *vrng, h lhist) (sig, desc string, summary string) {
 		if !c.sawEOF {
 			return "not-closed", fmt.Sprintf("client %d (class %c, delivered %d times) never saw its connection closed after the listener was closed", c.id, c.class, count[c.addr]), ""
 		}
-		if (c.class == 'H' || c.class == 'C' || c.class == 'B') && count[c.addr] == 0 && closedAt < 0 && h.closeAfter < 0 {
+		if (c.class == 'H' || c.class == 'C' || c.class == 'B' || c.class == 'W') && count[c.addr] == 0 && closedAt < 0 && h.closeAfter < 0 {
 			return "not-delivered", fmt.Sprintf("client %d (class %c, %d bytes, addr %s) fell through all routes but was never delivered although the listener was still open (delivered %d, accepts %d)", c.id, c.class, len(c.stream), c.addr, len(delivered), accepts), ""
 		}
 	}
